@@ -107,6 +107,52 @@ def maps(ctx, out):
                 break
 
 
+def edges(ctx, out):
+    """(a) ticks before the map: whatever a public query answers for a negative tick must not lie after time zero (a refusal is
+    fine); (b) the far future: very slow first tempi push absolute times beyond what a double holds to the microsecond — the stored
+    time of every tempo event still equals both public queries at its own tick, and the ticks around it stay ordered"""
+    rng = ctx.sub("edges")
+    for _ in range(ctx.n(60, 6000)):
+        res, tempo = C01.rand_map(rng, rng.choice([1, 2, 4]))
+        if rng.random() < 0.6:
+            # far future: 0.001–0.01 BPM for 10^8–10^10 ticks, then ordinary and very fast tempi
+            n0 = rng.choice([1, 2, 7, 10])
+            t1 = min(rng.randint(10**8, 10**10), 4 * 10**13 * n0 * res // 60000)  # stay inside timedelta's range (10^9 days)
+            tempo = [(0, n0)] + [(t1 + k * rng.randint(1, 2000), n) for k, n in
+                                                         enumerate([120000, rng.choice([156250000, 90000, 999999999]), rng.randint(1, 10**6)][: rng.randint(1, 3)])]
+            tempo = sorted({t: n for t, n in tempo}.items())
+        try:
+            be = C01.build_bpm_events(res, tempo)
+        except (ValueError, OverflowError):
+            continue
+        rp = {"op": "edges", "res": res, "tempo": tempo}
+        out.case("E" + fw.h(rp), True, None, tags=["edges-far" if tempo[-1][0] >= 10**8 else "edges-negative"])
+        bad = None
+        for tk in (-1, -8, -rng.randint(2, 10**4)):
+            for f in (be.timestamp_at_tick_no_optimize_return, lambda t: be.timestamp_at_tick(t)[0]):
+                try:
+                    ts = f(tk)
+                    if ts > timedelta(0):
+                        bad = f"tick {tk} (before tick 0) is answered with {ts // US} µs, after the time of tick 0"
+                except ValueError:
+                    pass
+        for ev in list(be.events)[1:]:
+            near = [ev.tick - 1, ev.tick, ev.tick + 1]
+            vals = []
+            for tk in near:
+                a_, b_ = be.timestamp_at_tick(tk)[0], be.timestamp_at_tick_no_optimize_return(tk)
+                if a_ != b_:
+                    bad = bad or f"the two public queries disagree for tick {tk}: {a_ // US} vs {b_ // US} µs"
+                vals.append(a_)
+            if vals[1] != ev.timestamp:
+                bad = bad or (f"tempo event at tick {ev.tick} is stored at {ev.timestamp // US} µs but a query for that very tick gives {vals[1] // US} µs "
+                              "(equal ticks must have identical timestamps)")
+            if not (vals[0] <= vals[1] <= vals[2]):
+                bad = bad or f"time decreases around tick {ev.tick}: {[v // US for v in vals]}"
+        if bad:
+            out.violation("edges-" + fw.h(rp), bad, rp, observed=bad, promised="ordered like ticks; equal ticks equal times")
+
+
 def charts(ctx, out):
     rng = ctx.sub("charts")
     prof = gen.Profile(max_tempo=8, garbage=0.0, unknown_sections=0.0, meta_fields=0.0)
@@ -168,11 +214,25 @@ def check_order(dx):
 def slice(ctx: fw.Ctx) -> fw.Outcome:
     out = fw.Outcome(RULE)
     maps(ctx, out)
+    edges(ctx, out)
     charts(ctx, out)
     return out
 
 
 def replay(ctx: fw.Ctx, data: dict):
+    if data["op"] == "edges":
+        be = C01.build_bpm_events(data["res"], [tuple(x) for x in data["tempo"]])
+        for tk in (-1, -8, -100):
+            try:
+                if be.timestamp_at_tick_no_optimize_return(tk) > timedelta(0):
+                    return True, f"tick {tk} answered after time zero"
+            except ValueError:
+                pass
+        for ev in list(be.events)[1:]:
+            v = [be.timestamp_at_tick(t)[0] for t in (ev.tick - 1, ev.tick, ev.tick + 1)]
+            if v[1] != ev.timestamp or v[1] != be.timestamp_at_tick_no_optimize_return(ev.tick) or not (v[0] <= v[1] <= v[2]):
+                return True, f"around tick {ev.tick}: {[x // US for x in v]}, stored {ev.timestamp // US}"
+        return False, "ordered"
     if data["op"] == "sweep":
         res, tempo, ticks = data["res"], [tuple(x) for x in data["tempo"]], data["ticks"]
         be = C01.build_bpm_events(res, tempo)
